@@ -321,8 +321,11 @@ def _stacks_part(ctx):
         ctx.count("oracle-only:" + name.split(" ")[0].split("(")[0].split("[")[0])
         if fail:
             f = json.loads(json.dumps(fail, default=str))
+            kid = fail.get("known_id")
             ctx.disagree("opalg.oracle:" + str(fail.get("what")), {"name": name, "key": [str(k) for k in key]}, f,
-                         "declared metadata = observed; matrix = same construction on the operands' matrices", oracle=lambda c, f=f: f)
+                         "declared metadata = observed; matrix = same construction on the operands' matrices", oracle=lambda c, f=f: f, known_id=kid)
+            if kid is not None and ctx.is_known(kid):
+                continue
             return
 
 
@@ -494,6 +497,10 @@ def findings(ctx, model):
     S = Dr + Gc
     y = S(jnp.ones((2,), dtype=S.input_dtype))
     ctx.known_finding("mixed-operand-dtypes", np.dtype(S.output_dtype) != np.dtype(y.dtype))
+    import opalg_gen as G_
+    import opalg_stacks as S_
+
+    ctx.known_finding(S_.KNOWN_NEG_INDEX, S_.neg_index_still_fails(G_.Env()))
 
 
 def replay(ctx, model, case):
